@@ -80,3 +80,12 @@ theorem RT_hasParameters (r : Router.Route) :
   rw [RT_searchPath]; rfl
 
 end Via
+
+namespace Via
+/-- non-vacuity of `RT_guard`: a protected route whose authenticator accepts reaches its handler; one that returns a
+    challenge gets 401 with that challenge -/
+example : GenRouter.handleRequest (some ({ path := b!"/p", methods := [(b!"GET", { handler := 7, auth := some 1 })] }, []))
+    (b!"GET") (fun _ => []) = .handler 7 [] := by decide
+example : GenRouter.handleRequest (some ({ path := b!"/p", methods := [(b!"GET", { handler := 7, auth := some 1 })] }, []))
+    (b!"GET") (fun _ => b!"Basic") = .status "UNAUTHORISED" [("HEADER_WWW_AUTHENTICATE", b!"Basic")] := by decide
+end Via
